@@ -279,7 +279,8 @@ def h_history(X, rec_menu, nrec, ops, nops):
 
 REC_QUICK = [("base", True), ("ign-param", True), ("xkey", True), ("base", False)]
 OPS_QUICK = ["req:base", "req:ign-param", "req:xkey", "toggle:server_replay_ignore_params", "toggle:server_replay_use_headers",
-             "reuse:server_replay_reuse", "extra:kill", "extra:404"]
+             "reuse:server_replay_reuse", "extra:kill"]
+OPS_QUICK_T = OPS_QUICK + ["extra:404"]  # thorough: appended, so quick counterexamples replay under either tier
 REC_FORM = [("form5", True), ("form6", True), ("raw5", True), ("form5", False)]
 OPS_FORM = ["req:form5", "req:form6", "req:raw5", "toggle:server_replay_ignore_payload_params", "toggle:server_replay_ignore_content",
             "reuse:server_replay_reuse", "extra:kill"]
@@ -291,15 +292,16 @@ OPS_ADDR = ["req:base", "req:host-b", "req:port-8080", "req:query-order", "toggl
 def obligations(tier):
     quick = tier == "quick"
     n = 3 if quick else 4
+    ops_q = OPS_QUICK if quick else OPS_QUICK_T
     reach = ["end", "served", "unmatched", "option-change", "served-with-reuse", "unmatched-while-active/kill"]
     obs = [
         Symx("key-matrix", lambda X: h_matrix(X, False),
              bounds=f"1 recording x 1 request over {len(SHAPES)} near-colliding shapes x all 2^6 combinations of the matching options x "
                     f"{{options set before load, recording re-indexed after load}}",
              encoded=ENCODED, must_reach=["end", "served", "unmatched"], parallel_depth=2),
-        Symx("history-query-headers", lambda X: h_history(X, REC_QUICK, 3, OPS_QUICK, n),
-             bounds=f"recorded set of 1..3 flows from {REC_QUICK} x every history of <= {n} steps over {OPS_QUICK}",
-             encoded=ENCODED, must_reach=reach + ["unmatched-while-active/404"], parallel_depth=3),
+        Symx("history-query-headers", lambda X: h_history(X, REC_QUICK, 3, ops_q, n),
+             bounds=f"recorded set of 1..3 flows from {REC_QUICK} x every history of <= {n} steps over {ops_q}",
+             encoded=ENCODED, must_reach=reach + ([] if quick else ["unmatched-while-active/404"]), parallel_depth=3),
     ]
     if not quick:
         obs += [
